@@ -11,7 +11,7 @@
 From Coq Require Import List ZArith Bool Lia.
 From RecordUpdate Require Import RecordUpdate.
 From GB Require Import Model.Allowance Model.Batcher Model.Shared Model.Store Proofs.Tactics Proofs.SharedInv Proofs.StoreInv.
-From GB Require Import Gen.Facts.
+From GB Require Import Gen.Facts Model.Lease Proofs.LeaseProofs.
 Import ListNotations.
 Open Scope Z_scope.
 
@@ -56,6 +56,17 @@ Theorem C09_invariants_hold_under_faults : forall c cfgs ls y,
   yrun c (yinit c cfgs) ls = Some y -> YInv y.
 Proof. intros c cfgs ls y R. exact (yinv_run c ls _ _ (yinv_init c cfgs) R). Qed.
 Print Assumptions C09_invariants_hold_under_faults.
+
+(* the blob lease manager turns every failure of AcquireLease - the lease already held by a peer, any other service
+   code, an error that is no service error at all - into an event and a zero lease time; only a success is a lease
+   (Model/Lease.v, compared with the real managers of both generations over all SDK service codes on every run) *)
+Theorem C09_lease_manager_errors_are_events_and_zero_lease_time : forall index r, r <> EOk ->
+  fst (lm_lease index r) = 0 /\ (snd (lm_lease index r) = [LFailed index] \/ snd (lm_lease index r) = [LError]).
+Proof.
+  intros index r H. destruct (lease_iff_acquired index r) as (_ & Z0 & F & E & _). split; [exact (Z0 H)|].
+  destruct r; try (left; reflexivity); try (right; reflexivity). congruence.
+Qed.
+Print Assumptions C09_lease_manager_errors_are_events_and_zero_lease_time.
 
 Theorem C09_source_constants :
   V1_default_maxinterval = 500 /\ V2_default_maxinterval = 500 /\ V1_lease_seconds = lease_seconds /\ V2_lease_seconds = lease_seconds.
